@@ -586,6 +586,83 @@ def rule_r7(chk, db):
             chk.verdict(c == "full", "R7", b.name.replace("s3s::", ""), b.loc(), "integer header reader: parser class is %s (needs a full-text parser)" % c)
 
 
+def _norm_field(n):
+    """smithy member names are snake-cased slightly differently by the two generators (`checksum_crc32c` / `checksum_crc32_c`, `type_` / `type`)"""
+    return n.replace("r#", "").replace("_", "").lower()
+
+
+def _nested_struct(db, ty, field):
+    """fields (normalised) of the struct type of `ty.field`, when that field is a struct of the s3s dto module (a flattened member group)"""
+    adt = db.adts.get(ty)
+    if adt is None:
+        return None, None
+    for f in adt["variants"][0]["fields"]:
+        if f["n"] == field:
+            t2 = f["ty"].strip()
+            a2 = db.adts.get(t2)
+            if a2 is not None and not a2.get("is_enum") and len(a2["variants"]) == 1:
+                return t2, {_norm_field(x["n"]) for x in a2["variants"][0]["fields"]}
+    return None, None
+
+
+def rule_r8(chk, db):
+    """dto <-> aws-sdk conversions of the proxy backend (s3s-aws, generated): every field of the s3s structure is converted from / into the
+    same-named field of the SDK structure, and no field is left out (translation validation of 2 x ~300 struct conversions)"""
+    bs = [b for b in db.bodies.values() if b.crate == "s3s_aws" and b.kind == "AssocFn" and b.impl_trait.endswith("conv::AwsConversion") and
+          b.impl_self.startswith("s3s::dto::")]
+    n_from = n_into = n_fields = 0
+    for b in sorted(bs, key=lambda x: x.name):
+        ty = b.impl_self
+        adt = db.adts.get(ty)
+        if adt is None or adt.get("is_enum") or len(adt["variants"]) != 1:
+            continue        # string enums / unions are converted by value tables (not decided here)
+        own = [f["n"] for f in adt["variants"][0]["fields"]]
+        key = ty.rsplit("::", 1)[-1]
+        if short(b.name) == "try_from_aws":
+            aggs = [(bi, st["rv"]) for bi, si, st in b.stmts() if st["rv"]["k"] == "agg" and st["rv"].get("adt") == ty]
+            if not aggs:
+                continue
+            n_from += 1
+            for bi, rv in aggs:
+                for f, o in zip(rv["fields"], rv["ops"]):
+                    sl = flow.backward(b, o, at=bi)
+                    src = sorted({fn for a, fn in sl.fields_full if a.startswith(("aws_sdk_s3::", "aws_smithy_types::"))})
+                    n_fields += 1
+                    # a field the SDK structure does not have is filled with a default: no SDK field in its slice
+                    ok = src == [] or {_norm_field(x) for x in src} == {_norm_field(f)}
+                    if not ok and len(src) > 1:
+                        # a member group the SDK flattens into the operation input (SelectObjectContentRequest)
+                        _, inner = _nested_struct(db, ty, f)
+                        ok = inner is not None and {_norm_field(x) for x in src} == inner
+                    chk.verdict(ok, "R8", "%s.%s<-aws" % (key, f), b.loc(bi), "field %s of %s is filled from the SDK field(s) %s" % (f, key, src), nontrivial=bool(src))
+        elif short(b.name) == "try_into_aws":
+            sets = [(bi, t) for bi, t in b.calls() if short(callee_def(t)).startswith("set_") and callee_def(t).startswith("aws_sdk_s3::")]
+            if not sets:
+                continue
+            n_into += 1
+            seen = set()
+            for bi, t in sets:
+                g = short(callee_def(t))[4:]
+                sl = flow.backward(b, t["args"][1], at=bi) if len(t["args"]) > 1 else None
+                src = sorted({fn for a, fn in (sl.fields_full if sl else []) if a == ty})
+                n_fields += 1
+                seen |= {_norm_field(x) for x in src}
+                if len(src) == 1 and _norm_field(src[0]) != _norm_field(g):
+                    t2, inner = _nested_struct(db, ty, src[0])
+                    if t2 is not None:
+                        src2 = sorted({fn for a, fn in sl.fields_full if a == t2})
+                        if {_norm_field(x) for x in src2} == {_norm_field(g)}:
+                            chk.ok("R8", "%s.%s->aws" % (key, g), b.loc(bi), {"flattened_from": src[0]})
+                            continue
+                chk.verdict({_norm_field(x) for x in src} == {_norm_field(g)}, "R8", "%s.%s->aws" % (key, g), b.loc(bi),
+                            "SDK member %s of %s is set from the field(s) %s" % (g, key, src))
+            missing = sorted({_norm_field(x) for x in own} - seen)
+            chk.verdict(not missing, "R8", "%s.all-fields->aws" % key, b.loc(), "fields %s of %s are not handed to the SDK builder (dropped on the way through the proxy)" % (missing, key),
+                        nontrivial=False)
+    chk.stats["aws_conversions"] = {"from_aws": n_from, "into_aws": n_into, "fields": n_fields}
+    chk.floor("R8", n_from + n_into, 500, "struct conversions in s3s-aws")
+
+
 def run(chk, db, tier):
     model = load_model()
     chk.rule("R1", "input binding table: every member of every operation input is read from the model's location / wire name / "
@@ -601,6 +678,9 @@ def run(chk, db, tier):
     chk.guard("R4", rule_r4_qs_none, db, helpers)
     chk.guard("R5", rule_r5, db)
     chk.guard("R7", rule_r7, db)
+    if tier == "thorough":
+        chk.rule("R8", "dto <-> aws-sdk conversions (s3s-aws): every field converted from / into the same-named SDK field, none dropped")
+        chk.guard("R8", rule_r8, db)
     # prerequisite for the members bound to the XML payload: the XML reader hands over exactly the character data sent (decided for C13)
     from . import c13
     from ..report import Sub
@@ -621,5 +701,5 @@ META = {
                     "aws-sdk's own encoders", "streamed body bytes (C08/C09)"],
     "assumptions": ["rustc nightly MIR construction", "data/s3.json is the binding oracle (deviation table in s3sv/model.py)",
                     "http crate's standard header table (read from the cargo registry source pinned by Cargo.lock)"],
-    "thorough_crates": [],
+    "thorough_crates": ["s3s_aws"],
 }
